@@ -13,7 +13,7 @@ Key == {"k1", "k2", "k3"}
 \* ---------------------------------------------------------------- C10
 IDOf(k) == <<"mh", "identity", <<"pubproto", k>>>>
 PeerIdPairs == [prop : {"C10"}, kind : {"pair"}, a : Key, b : Key]
-PeerIdBytes == [prop : {"C10"}, kind : {"bytes"}, code : {"identity", "sha256"}, codeVar : {"ok", "trunc", "overflow"},
+PeerIdBytes == [prop : {"C10"}, kind : {"bytes"}, code : {"identity", "sha256"}, codeVar : {"ok", "trunc", "overflow", "empty"},
                 lenRel : {"eq", "short", "long"}, lenVar : {"ok", "trunc"}, digest : {"keyproto", "wrongtype", "garbage", "empty"},
                 text : {"b58", "notb58"}]
 ExpBytes(c) ==
